@@ -814,17 +814,88 @@ def _first_diff(a, b):
 # runner interface
 
 
+def _simpler(spec):
+    """candidate one-step simplifications of a spec (each is itself a member of the generated language)"""
+    out = []
+    k = spec["kind"]
+    if k == "history":
+        seq = spec["seq"]
+        for i in range(len(seq) - 1):
+            out.append(dict(spec, seq=seq[:i] + seq[i + 1 :]))
+        return out
+    if k == "fit":
+        if spec.get("state", "unfit") != "unfit":
+            out.append(dict(spec, state="unfit"))
+            if spec["state"] == "asym":
+                out.append(dict(spec, state="fit"))
+        toks = (spec.get("pstate") or "none").split("+")
+        if toks != ["none"]:
+            out.append(dict(spec, pstate="none"))
+            if len(toks) > 1:
+                for i in range(len(toks)):
+                    out.append(dict(spec, pstate="+".join(toks[:i] + toks[i + 1 :])))
+        for key in ("dea", "minimizer", "save", "hist_data", "bin_evaluation", "density"):
+            if spec.get(key) is not None and not (key == "bin_evaluation" and spec["model"] == "parab"):
+                out.append({a: b for a, b in spec.items() if a != key})
+    if k == "model" and spec.get("pars", "P0") != "P0":
+        out.append(dict(spec, pars="P0"))
+    if spec.get("labels"):
+        out.append(dict(spec, labels=False))
+    if spec.get("fmt"):
+        out.append(dict(spec, fmt=False))
+    src = spec.get("sources") or []
+    for i in range(len(src)):
+        out.append(dict(spec, sources=src[:i] + src[i + 1 :]))
+    if k == "fit":
+        out = [o for o in out if _fit_ok(o["ftype"], o.get("cost"), o.get("sources", []), o.get("pstate"), o.get("state"))]
+    return out
+
+
+def minimise(spec, obs_base, mode, workdir, budget=40):
+    """greedy descent to a spec none of whose one-step simplifications still shows (obs_base, mode)"""
+
+    def shows(sp):
+        try:
+            return [v for v in examine(sp, workdir, None) if v["observable"].split("@")[0] == obs_base and v["mode"] == mode]
+        except Exception:  # noqa: BLE001  (a simplification the builder rejects)
+            return []
+
+    cur, cur_v = spec, None
+    improved = True
+    while improved and budget > 0:
+        improved = False
+        for cand in _simpler(cur):
+            budget -= 1
+            vs = shows(cand)
+            if vs:
+                cur, cur_v, improved = cand, vs[0], True
+                break
+            if budget <= 0:
+                break
+    return cur, cur_v
+
+
+MINIMISE_PER_JOB = 6
+
+
 def run_job(spec):
     kind, v, tier, shard, nshards = spec
     res = JobResult()
     specs = ENUM[kind](tier, v)
     workdir = tempfile.mkdtemp(prefix="kmc_c09_")
+    minimal, plain, done = [], [], set()
     try:
         for i, s in enumerate(specs):
             if i % nshards != shard:
                 continue
             for viol in examine(s, workdir, res):
-                res.violation(sig_of(s), [s], viol["observable"], viol["expected"], viol["actual"], viol["mode"])
+                plain.append((s, viol))
+                key = (s["kind"], s.get("ftype", s.get("ctype", s.get("mtype", ""))), viol["observable"].split("@")[0], viol["mode"])
+                if key not in done and len(done) < MINIMISE_PER_JOB:
+                    done.add(key)
+                    ms, mv = minimise(s, key[2], key[3], workdir)
+                    if mv is not None:
+                        minimal.append((ms, mv))
             res.facts["kind:" + s["kind"] + (":" + s.get("ftype", s.get("ctype", s.get("mtype", ""))) if s["kind"] in ("fit", "container", "model") else "")] += 1
             if s["kind"] == "fit":
                 res.facts["fit-state:" + s.get("state", "unfit")] += 1
@@ -835,6 +906,9 @@ def run_job(spec):
                         res.facts["fit:model-referenced-source"] += 1
             if i % nshards == shard and len(res.samples) < 1:
                 res.sample(dict(sig=sig_of(s), spec=s))
+        # minimised witnesses first (the runner reports the first distinct violations it meets)
+        for s, viol in minimal + plain:
+            res.violation(sig_of(s), [s], viol["observable"], viol["expected"], viol["actual"], viol["mode"])
     finally:
         shutil.rmtree(workdir, ignore_errors=True)
     return res.as_dict()
